@@ -97,10 +97,11 @@ class LeanBuild:
         try:
             info = {"generated": None, "generated_broken": None}
             if regenerate:
-                from . import translate_config, translate_flags
+                from . import translate_config, translate_flags, translate_wiring
 
                 info["generated"] = translate_flags.regenerate()
                 info["generated_config"] = translate_config.regenerate()
+                info["generated_wiring"] = translate_wiring.regenerate()
             t0 = time.time()
             p = _run(["lake", "build"], cwd=LEAN_DIR)
             info["build_s"] = round(time.time() - t0, 1)
@@ -111,7 +112,7 @@ class LeanBuild:
                 log = p.stdout + p.stderr
                 failing = set(re.findall(r"^- (\S+)$", log, re.M))
                 info["failing_targets"] = sorted(failing)
-                gen_related = {t for t in failing if t.startswith("Generated") or t in ("PtaProofs.Props.Tables",)}
+                gen_related = {t for t in failing if t.startswith("Generated") or t in ("PtaProofs.Props.Tables", "PtaProofs.Props.TablesWiring")}
                 if failing and failing <= gen_related | {"PtaProofs", "PtaProofs.Audit"} and gen_related:
                     info["generated_broken"] = sorted(gen_related)
                     # rebuild everything that does not depend on Generated so the driver is usable
@@ -350,6 +351,7 @@ def finish(ctx: Ctx, lean_info: dict, rule: str, extra_assumptions=(), checker_c
         "out_of_domain_drift": ctx.drift[:10],
         "generated": lean_info.get("generated"),
         "generated_config": lean_info.get("generated_config"),
+        "generated_wiring": lean_info.get("generated_wiring"),
         "leanchecker": lean_info.get("leanchecker"),
         "generated_broken": lean_info.get("generated_broken"),
         "known_findings": ctx.known_lines,
